@@ -57,14 +57,32 @@ Definition register (skip_quirk : bool) (r : registry) (p : pat) (s : sett) : re
   | None => set_key r p s
   end.
 
+(* ---- save / reload (settings.json): PatternModel keeps the canonical name, the type, the
+        idle time and - for persistent patterns only - write interval and file size ---------- *)
+Record pmodel := { m_pat : pat; m_inmem : bool; m_idle : Z; m_wint : Z; m_maxfs : Z }.
+
+Definition save_entry (e : pat * sett) : pmodel :=
+  let s := snd e in
+  {| m_pat := fst e; m_inmem := in_mem s; m_idle := idle s;
+     m_wint := if in_mem s then 0%Z else wint s;
+     m_maxfs := if in_mem s then 0%Z else maxfs s |}.
+
+Definition load_entry (m : pmodel) : pat * sett :=
+  (m_pat m, {| in_mem := m_inmem m; idle := m_idle m; wint := m_wint m; maxfs := m_maxfs m |}).
+
+Definition save (r : registry) : list pmodel := map save_entry r.
+Definition load (ms : list pmodel) : registry := map load_entry ms.
+
 Inductive event :=
 | Reg (p : pat) (s : sett)
-| Dereg (p : pat).
+| Dereg (p : pat)
+| Restart.                       (* process restart: settings.New reloads settings.json *)
 
 Definition step (skip_quirk : bool) (r : registry) (e : event) : registry :=
   match e with
   | Reg p s => register skip_quirk r p s
   | Dereg p => remove_key p r
+  | Restart => load (save r)
   end.
 
 Definition run (skip_quirk : bool) (evs : list event) : registry :=
@@ -98,22 +116,6 @@ Definition lookup_best (order : registry) (n : pat) : sett :=
   | None => default_sett
   end.
 
-(* ---- save / reload (settings.json): PatternModel keeps the canonical name, the type, the
-        idle time and - for persistent patterns only - write interval and file size ---------- *)
-Record pmodel := { m_pat : pat; m_inmem : bool; m_idle : Z; m_wint : Z; m_maxfs : Z }.
-
-Definition save_entry (e : pat * sett) : pmodel :=
-  let s := snd e in
-  {| m_pat := fst e; m_inmem := in_mem s; m_idle := idle s;
-     m_wint := if in_mem s then 0%Z else wint s;
-     m_maxfs := if in_mem s then 0%Z else maxfs s |}.
-
-Definition load_entry (m : pmodel) : pat * sett :=
-  (m_pat m, {| in_mem := m_inmem m; idle := m_idle m; wint := m_wint m; maxfs := m_maxfs m |}).
-
-Definition save (r : registry) : list pmodel := map save_entry r.
-Definition load (ms : list pmodel) : registry := map load_entry ms.
-
 (* ---- specification --------------------------------------------------------------------- *)
 
 (* the registration in force for pattern p after a history: the last event about p *)
@@ -121,6 +123,7 @@ Definition spec_step (p : pat) (st : option sett) (e : event) : option sett :=
   match e with
   | Reg q s => if pat_eqb p q then Some s else st
   | Dereg q => if pat_eqb p q then None else st
+  | Restart => st                (* a restart changes nothing *)
   end.
 
 Definition last_reg (evs : list event) (p : pat) : option sett := fold_left (spec_step p) evs None.
@@ -150,14 +153,22 @@ Definition sett_obs (s : sett) : sett :=
   {| in_mem := in_mem s; idle := wrap64 (idle s * 1000000000); wint := wrap64 (wint s * 1000000000);
      maxfs := maxfs s |}.
 
-(* one queried name: the distinct answers of repeated GetBySwampName calls before the
-   restart, and after a restart (fresh settings.New on the same root) *)
+(* one queried name: the distinct answers of repeated GetBySwampName calls at this point of
+   the history, and - at the end of the history only - after a further restart (fresh
+   settings.New on the same root) *)
 Record query := { q_name : pat; q_before : list sett; q_after : list sett }.
 
-Record case := { c_events : list event; c_queries : list query }.
+(* a history interleaves registry events with lookups: the lookups see the registrations in
+   force at that moment *)
+Inductive hstep :=
+| HEv (e : event)
+| HQ (q : query).
+
+Record case := { c_steps : list hstep }.
 
 (* codes: 1 model <> implementation   2 more than one distinct answer (nondeterministic)
-          3 answer is not the most specific registered match   4 answer after restart differs *)
+          3 answer is not the most specific registered match (of the registrations in force
+            at the time of the call)   4 answer after restart differs *)
 Definition chk_query (evs : list event) (q : query) : list N :=
   let want := sett_obs (spec_lookup evs (q_name q)) in
   let model := sett_obs (lookup_best (run false evs) (q_name q)) in
@@ -168,9 +179,22 @@ Definition chk_query (evs : list event) (q : query) : list N :=
    end) ++
   (match q_after q with
    | [a] => (if sett_eqb a want then [] else [4]) ++ (if sett_eqb a model_after then [] else [1])
-   | [] => []                                   (* no restart in this case *)
+   | [] => []                                   (* no restart observed here *)
    | _ => [2]
    end).
+
+(* short constructors for the generated case files *)
+Definition P_ (s r w : N) : pat := {| ps := s; pr := r; pw := w |}.
+Definition S_ (m : bool) (i w f : Z) : sett := {| in_mem := m; idle := i; wint := w; maxfs := f |}.
+Definition Q_ (n : pat) (b a : list sett) : hstep := HQ {| q_name := n; q_before := b; q_after := a |}.
+
+(* [past]: the events so far, most recent first *)
+Fixpoint chk_steps (past : list event) (l : list hstep) : list N :=
+  match l with
+  | [] => []
+  | HEv e :: t => chk_steps (e :: past) t
+  | HQ q :: t => chk_query (rev past) q ++ chk_steps past t
+  end.
 
 Fixpoint dedup (l : list N) : list N :=
   match l with
@@ -178,7 +202,7 @@ Fixpoint dedup (l : list N) : list N :=
   | c :: t => if existsb (N.eqb c) t then dedup t else c :: dedup t
   end.
 
-Definition chk (c : case) : list N := dedup (flat_map (chk_query (c_events c)) (c_queries c)).
+Definition chk (c : case) : list N := dedup (chk_steps [] (c_steps c)).
 
 Fixpoint check_from (i : N) (cs : list case) : list verdict :=
   match cs with
